@@ -449,7 +449,9 @@ func init() {
 				if call, ok := a.Val.(*ssa.Call); ok {
 					if b, ok := call.Call.Value.(*ssa.Builtin); ok && b.Name() == "append" {
 						nBack++
-						c.Dom("rr-requeue-if-backlogged", a.Instr, CmpCond(token.GTR, IsCallOf(c.Fn("pendingBaseQueue.size")), IsConstInt(0)), "stream still has queued chunks")
+						sz := IsCallOf(c.Fn("pendingBaseQueue.size"))
+						okB := DominatedByExt(a.Instr, CmpCond(token.GTR, sz, IsConstInt(0))) || DominatedByExt(a.Instr, CmpCond(token.NEQ, sz, IsConstInt(0))) || DominatedByExt(a.Instr, CmpCond(token.GEQ, sz, IsConstInt(1)))
+						c.Check(okB, "rr-requeue-if-backlogged", c.Pos(a.Instr), "dominated by stream still has queued chunks", "the served stream re-enters the order although it has nothing queued ("+c.describeConds(a.Instr)+")")
 					}
 				}
 			}
